@@ -776,7 +776,7 @@ func cmdCheck(spec propSpec, tier string) int {
 
 	if len(a.infra) > 0 {
 		fmt.Fprintf(os.Stderr, "check: simulator trouble (exit 2), first of %d:\n%s\n", len(a.infra), a.infra[0])
-		writeEvidence(spec, tier, seed, &a, nil, nil, start)
+		writeEvidence(spec, tier, seed, &a, nil, nil, start, 0)
 		return 2
 	}
 	// a worker that died of a fatal error / signal is a self-inflicted failure of the system
@@ -785,7 +785,7 @@ func cmdCheck(spec propSpec, tier string) int {
 		fmt.Fprintf(os.Stderr, "check: %s\n", c)
 	}
 	if len(a.crashes) > 0 {
-		writeEvidence(spec, tier, seed, &a, nil, nil, start)
+		writeEvidence(spec, tier, seed, &a, nil, nil, start, 0)
 		return 2
 	}
 
@@ -883,7 +883,7 @@ func cmdCheck(spec propSpec, tier string) int {
 		parts := strings.SplitN(k, " ", 2)
 		fmt.Printf("KNOWN-FINDING: property=%s %s\n", parts[0], parts[1])
 	}
-	writeEvidence(spec, tier, seed, &a, incidental, knownLines, start)
+	writeEvidence(spec, tier, seed, &a, incidental, knownLines, start, len(own))
 	n := len(a.results)
 	fmt.Printf("check %s (%s): %d runs, %d violations of %s, %d incidental, %d known; %.0fs\n", spec.ID, tier, n, len(own), spec.ID, len(incidental), len(known), time.Since(start).Seconds())
 	return exit
@@ -909,7 +909,7 @@ func firstLines(s string, n int) string {
 
 // ---- evidence -----------------------------------------------------------------------------------
 
-func writeEvidence(spec propSpec, tier string, seed uint64, a *agg, incidental map[string]int, known []string, start time.Time) {
+func writeEvidence(spec propSpec, tier string, seed uint64, a *agg, incidental map[string]int, known []string, start time.Time, unlisted int) {
 	level := spec.Level
 	if level == "" {
 		level = "exploration"
@@ -943,7 +943,7 @@ func writeEvidence(spec propSpec, tier string, seed uint64, a *agg, incidental m
 		digests += r.Digests
 		profiles[r.Profile]++
 		if r.Violation != nil && r.Violation.Prop == spec.ID {
-			nviol++
+			nviol++ // all, listed ones included
 		}
 	}
 	if len(samples) == 0 {
@@ -990,7 +990,9 @@ func writeEvidence(spec propSpec, tier string, seed uint64, a *agg, incidental m
 			"seeded sampling: a clean batch is evidence, not proof",
 		},
 		"wall_s":     wall,
-		"violations": nviol,
+		// violations of this property that known_findings.json does not list (each printed as a
+		// VIOLATION line); hits of listed open findings are in coverage.known_findings_hit
+		"violations": unlisted,
 	}
 	b, _ := json.MarshalIndent(ev, "", " ")
 	_ = os.MkdirAll(filepath.Join(verifDir, "evidence"), 0755)
